@@ -42,6 +42,17 @@ Theorem C18_decode_all_fresh : forall E n0 t w,
 Proof. exact unpack_all_fresh. Qed.
 Print Assumptions C18_decode_all_fresh.
 
+(* Unions / constrained TypeVars on the decode side (members told apart by the class of the wire
+   value): a typed member never hands back an input object -- instance of the previous theorem;
+   with Any items (bare `list`) only the items may be input objects, never the list itself
+   (C18_decode_fresh with anyref; see the example below). *)
+Theorem C18_decode_union_fresh : forall E n0 us w,
+  anyfree_env E -> forallb anyfree us = true ->
+  wconforms E w (TUnion us) = true -> all_old n0 w = true ->
+  forall l, In l (labels (fst (unpack_top E (TUnion us) w n0))) -> n0 <= l.
+Proof. intros E n0 us w He Hu. apply unpack_all_fresh; auto. Qed.
+Print Assumptions C18_decode_union_fresh.
+
 (* The model cannot write (pure functions).  What can be stated inside it: an old label never
    comes back with altered content -- every old-labelled node of a result is, as a whole, a
    sub-value of the argument.  Mutation-freedom of the real library is what the oracle's
@@ -90,3 +101,15 @@ Example C18_nonvacuous_decode :
   wconforms env0 w (TSeq OList (TMap ODict TAtom TAny)) = true /\
   maxold 3 (fst (unpack_top env0 (TSeq OList (TMap ODict TAtom TAny)) w 3)) = [VSeq KList 2 []].
 Proof. vm_compute. split; reflexivity. Qed.
+
+(* Union[int, list] (bare list = list of Any) and Dict[str, Union[str, List[int]]]: the list
+   member is rebuilt; only an item at an Any position is still the input's *)
+Example C18_nonvacuous_decode_union :
+  let w := VSeq KList 0 [VSeq KList 1 [VAtom 1%Z]] in
+  let t := TUnion [TAtom; TSeq OList TAny] in
+  wconforms env0 w t = true /\
+  fst (unpack_top env0 t w 3) = VSeq KList 3 [VSeq KList 1 [VAtom 1%Z]] /\
+  maxold 3 (fst (unpack_top env0 t w 3)) = [VSeq KList 1 [VAtom 1%Z]] /\
+  maxold 3 (fst (unpack_top env0 (TMap ODict TAtom (TUnion [TAtom; TSeq OList TAtom]))
+                            (VMap KDict 0 [(VAtom 0%Z, VSeq KList 1 [VAtom 5%Z]); (VAtom 1%Z, VAtom 2%Z)]) 3)) = [].
+Proof. vm_compute. repeat split; reflexivity. Qed.
